@@ -24,7 +24,9 @@ class C19(Prop):
     id = "C19"
     rule = ("each compiled parallel kernel on exact-arithmetic inputs under numba.set_num_threads(t), t in "
             "{1,2,3,5,8,16 (capped at the machine maximum)} x set_parallel_chunksize(k) x repetitions, shapes from 1x1 "
-            "to iterations >> threads; results bit-compared with each other, with .py_func and with a NumPy reference. "
+            "to iterations >> threads; results bit-compared with each other, with .py_func and with a NumPy reference; "
+            "for blocks of <= 64 cells the GENERATED kernel (Generated/LoopKernels, executable twin) is run on the same "
+            "input and compared cell by cell. "
             "Non-trivial = more iterations than one thread; distinct by (kernel, shape, params).")
     assumptions = ["numba's lowering, its scheduler and the hardware memory model are not modelled; the theorem is about "
                    "the loop semantics the source denotes (partial by nature)",
@@ -36,7 +38,7 @@ class C19(Prop):
 
     def _case(self, rng, kern=None):
         kern = kern or rng.choice(KERNELS)
-        shape = rng.choice(((1, 1), (1, 7), (4, 1), (8, 33), (16, 257), (64, 1000), (3, 4099)))
+        shape = rng.choice(((1, 1), (1, 7), (4, 1), (4, 9), (8, 8), (2, 21), (8, 33), (16, 257), (64, 1000), (3, 4099)))
         C, T = shape
         c = {"kern": kern, "C": C, "T": T, "u8": rng.random() < 0.5, "dseed": rng.randrange(1 << 30),
              "reps": 2, "chunk": rng.choice((0, 1, 7))}
@@ -60,7 +62,10 @@ class C19(Prop):
 
     # ------------------------------------------------------------------
     def _call(self, case, py):
-        """run the kernel once (compiled or its Python definition); returns the output array as bytes + summary"""
+        """run the kernel once (compiled or its Python definition); returns the output array as bytes"""
+        return np.ascontiguousarray(self._call_arr(case, py)).tobytes()
+
+    def _call_arr(self, case, py):
         from sigpyproc.core import kernels as K
 
         kern, C, T = case["kern"], case["C"], case["T"]
@@ -111,7 +116,64 @@ class C19(Prop):
             xf = x.astype(np.float32)
             fn = K.downsample_2d_mean_flat.py_func if py else K.downsample_2d_mean_parallel
             out = fn(xf, case["f1"], case["f2"], T, C)
-        return np.ascontiguousarray(out).tobytes()
+        return out
+
+    # ---- the GENERATED kernels (Generated/LoopKernels.lean) on the same inputs: bounds the trust in the translator
+    K_LIMIT = 64      # cells; the functional-array twins cost ~cells^3 to evaluate
+
+    def model_requests(self, case, obs):
+        kern, C, T = case["kern"], case["C"], case["T"]
+        if "err" in obs or C * T > self.K_LIMIT or kern.startswith("moments"):
+            return []
+        x = _inputs(case)
+        xs = " ".join(str(int(v)) for v in x)
+        z = lambda n: " ".join(["0"] * n) if n else "0"   # noqa: E731
+        if kern in ("dedisperse", "subband"):
+            md = case["md"]
+            delays = (np.arange(C) * md // max(1, C - 1)).astype(np.int32) if C > 1 else np.zeros(1, dtype=np.int32)
+            md = int(delays.max())
+            ds = " ".join(str(int(v)) for v in delays)
+        if kern == "extract_tim":
+            return [f"K extract_tim {C} {T} 3 {T + 3} | {xs} | {z(T + 3)}"]
+        if kern == "extract_bpass":
+            return [f"K extract_bpass {C} {T} {C} | {xs} | {z(C)}"]
+        if kern == "mask_channels":
+            m = " ".join("1" if c % 3 == 0 else "0" for c in range(C))
+            return [f"K mask_channels {C} {T} {C * T} | {xs} | {m} | 7"]
+        if kern == "dedisperse":
+            return [f"K dedisperse {md} {C} {T} 2 {T - md + 2} | {xs} | {z(T - md + 2)} | {ds}"]
+        if kern == "invert_freq":
+            return [f"K invert_freq {C} {T} {C * T} | {xs}"]
+        if kern == "subband":
+            ns = case["nsub"]
+            c2s = " ".join(str(c // (C // ns)) for c in range(C))
+            return [f"K subband {md} {C} {ns} {T} {(T - md) * ns} | {xs} | {z((T - md) * ns)} | {ds} | {c2s}"]
+        if kern == "remove_zerodm":
+            bp = " ".join(str(c % 5) for c in range(C))
+            w = " ".join(["1/256"] * C)
+            return [f"K remove_zerodm {C} {T} {C * T} | {xs} | {z(C * T)} | {bp} | {w}"]
+        if kern == "downsample_1d":
+            f1 = case["f1"]
+            return [f"K downsample_1d {f1} {len(x)} {len(x) // f1} | {xs}"]
+        f1, f2 = case["f1"], case["f2"]
+        return [f"K downsample_2d {f1} {f2} {T} {C} {(T // f1) * (C // f2)} | {xs}"]
+
+    def model_compare(self, case, obs, answers):
+        if not answers:
+            return None
+        from fractions import Fraction
+        self._kcmp = getattr(self, "_kcmp", 0) + 1
+        t = answers[0].split()
+        if not t or t[0] != "ok":
+            return f"generated kernel: {answers[0][:80]}"
+        want = [float(Fraction(v)) for v in t[1:]]
+        got = [float(v) for v in np.asarray(self._call_arr(case, True)).ravel()]
+        if len(got) != len(want):
+            return f"generated {case['kern']}: {len(want)} cells, implementation {len(got)}"
+        for i, (a, b) in enumerate(zip(got, want)):
+            if a != b:
+                return f"generated {case['kern']} ({case['C']}x{case['T']}): cell {i} is {b} in the translated kernel, {a} in the source's own Python definition"
+        return None
 
     def _reference(self, case):
         """NumPy definition, for the kernels where it is a one-liner"""
@@ -185,7 +247,7 @@ class C19(Prop):
         return str((case["kern"], case["C"], case["T"], case.get("md"), case.get("nsub"), case.get("f1"), case.get("f2"), case["u8"]))
 
     def extra_coverage(self):
-        return {"thread_counts": list(THREADS)}
+        return {"thread_counts": list(THREADS), "generated_kernel_comparisons": getattr(self, "_kcmp", 0)}
 
 
 PROP = C19()
